@@ -940,10 +940,26 @@ def rule_G2_G3(ctx, typer):
                 others.append((f, node))
     if not stores or not loads:
         raise AnalysisError("anchor: no store/load of Resolver._match_cache found")
+    # the cache belongs to the private machinery of Resolver: the name-mangled methods that store compiled patterns in it
+    # (on the pinned tree: __match; a helper split off it, or inlined into its callers, is the same machinery)
+    owners = []
+    for f, node in stores:
+        if f.cls is not None and f.cls.name == "Resolver" and f.srcname.startswith("__") and not f.srcname.endswith("__") and f not in owners:
+            owners.append(f)
     for f, node in stores + clears + others:
         n += 1
-        if f is not ma:
-            ctx.viol("G3", f, node, "the shared pattern cache is mutated outside Resolver.__match")
+        if f not in owners:
+            ctx.viol("G3", f, node, "the shared pattern cache is mutated outside the private pattern machinery of Resolver (%s)" % (
+                ", ".join(o.srcname for o in owners) or "no private method stores to it"))
+    if not owners:
+        return n
+    for ma in owners:
+        n += _g2_g3_owner(ctx, typer, ma, stores, loads, clears, others)
+    return n
+
+
+def _g2_g3_owner(ctx, typer, ma, stores, loads, clears, others):
+    n = 0
     for f, node in others:
         if f is ma:
             ctx.viol("G3", f, node, "the shared pattern cache is mutated by something other than the keyed store and the size-bounded clear()")
@@ -1058,6 +1074,33 @@ def rule_R6_string_compare(ctx, typer, funcs):
                     from ..nodetype import show
                     ctx.viol("R6", f, node, "the node's name reaches the comparison as `%s` (type %s), not through the str()-coercing "
                              "accessor: non-string names (ints, enums) no longer resolve, and str methods may raise" % (norm(a0), show(t)))
+            elif isinstance(node, ast.Call) and isinstance(node.func, ast.Attribute) and node.func.attr in ("match", "fullmatch") \
+                    and len(node.args) == 1 and not (isinstance(node.func.value, ast.Name) and node.func.value.id == "re"):
+                # the pattern applied directly: `<compiled>.match(name)`
+                a0 = node.args[0]
+                t = ft.type_of(a0)
+                n += 1
+                if t == STR:
+                    ctx.inst("R6", f, node, "node name matched as a string (str-typed)")
+                else:
+                    from ..nodetype import show
+                    ctx.viol("R6", f, node, "the node's name reaches the pattern match as `%s` (type %s), not as a string: non-string names "
+                             "(ints, enums) make the match raise" % (norm(a0), show(t)))
+            elif isinstance(node, ast.Compare) and len(node.ops) == 1 and isinstance(node.ops[0], (ast.Eq, ast.NotEq)):
+                # the comparator written out: `_getattr(child, attr) == name`, `_getattr(child, attr).upper() == name`
+                for side in (node.left, node.comparators[0]):
+                    base = side
+                    while isinstance(base, ast.Call) and isinstance(base.func, ast.Attribute) and base.func.attr in ("upper", "lower", "casefold"):
+                        base = base.func.value
+                    if isinstance(base, ast.Call) and isinstance(base.func, ast.Name) and base.func.id == "_getattr":
+                        t = ft.type_of(base)
+                        n += 1
+                        if t == STR:
+                            ctx.inst("R6", f, node, "node name compared as a string (str-typed)")
+                        else:
+                            from ..nodetype import show
+                            ctx.viol("R6", f, node, "the node's name reaches the comparison as `%s` (type %s), not as a string: non-string "
+                                     "names (ints, enums) no longer resolve, and str methods may raise" % (norm(base), show(t)))
     return n
 
 
@@ -1088,12 +1131,19 @@ def rule_G6_no_extra_pruning(ctx, typer):
         elif isinstance(a, ast.Assign) and any(isinstance(t, ast.Name) and t.id in acc for t in a.targets) and not (isinstance(a.value, ast.List) and not a.value.elts):
             adders.append(cn)
     n = 0
-    guards = [g for g in cfg.nodes if g.kind == "guard" and g.outcome is True and isinstance(g.cond, ast.Call)
-              and norm(g.cond.func).endswith("__match")]
+
+    def is_match(c):
+        """the name is matched against the pattern: `self.__match(name, pat)` or `<compiled>.match(name) is not None`"""
+        if isinstance(c, ast.Call) and norm(c.func).endswith("__match"):
+            return True
+        return isinstance(c, ast.Compare) and len(c.ops) == 1 and isinstance(c.ops[0], ast.IsNot) and isinstance(c.comparators[0], ast.Constant) \
+            and c.comparators[0].value is None and isinstance(c.left, ast.Call) and isinstance(c.left.func, ast.Attribute) \
+            and c.left.func.attr in ("match", "fullmatch") and len(c.left.args) == 1
+    guards = [g for g in cfg.nodes if g.kind == "guard" and g.outcome is True and is_match(g.cond)]
     heads = [h for h in cfg.nodes if h.kind == "fornext"]
     if not guards or not heads or not adders:
         raise AnalysisError("anchor: match guard / result accumulation in Resolver.__find not found")
-    match_tests = [t for t in cfg.nodes if t.kind == "test" and isinstance(t.cond, ast.Call) and norm(t.cond.func).endswith("__match")]
+    match_tests = [t for t in cfg.nodes if t.kind == "test" and is_match(t.cond)]
     for li in [x for x in cfg.nodes if x.kind == "loopin"]:
         hs = [h for h in heads if h.ast is li.ast]
         if not hs or not any(cfg.dominates(li, t) for t in match_tests):
